@@ -465,7 +465,14 @@ func (info *decodeInfo) decodeCharString(code []byte) (*Glyph, error) {
 				if k < 0 {
 					return nil, errStackUnderflow
 				}
-				stack[k] = float64(int64(stack[k]) * int64(stack[k+1]) >> 16)
+				x := stack[k] * stack[k+1]
+				// the result of an overflow is undefined; keep it in the 16.16 range
+				if x > 32767 {
+					x = 32767
+				} else if x < -32768 {
+					x = -32768
+				}
+				stack[k] = x
 				stack = stack[:k+1]
 			case t2sqrt:
 				k := len(stack) - 1
